@@ -213,6 +213,30 @@ def run(rep, tier, seed, replay):
             else:
                 rep.violation("oracle", pr.split(":", 1)[-1] if pr[:4] in ("TREE", "GAP:") else pr, inp, impl=line[:300], fragment=fr)
 
+    # ---- a COMBINATOR exposes one capture only, the group of its alternatives: capture 0 and capture 1 are the complete path
+    # and nothing lies beyond, however many patterns were combined and however they were given (text, compiled, owned, twice,
+    # nested); the model's program for any([e]) has exactly one capturing group around everything (compared in C07 / C19)
+    if replay is None or replay["input"].get("what") == "any-captures":
+        bypath = {}
+        for k, p in pairs:
+            bypath.setdefault(k, []).append(p)
+        ks = [k for k in built if k in bypath]
+        if replay is None and len(ks) > (400 if tier == "quick" else 4000):
+            ks = r.sample(ks, 400 if tier == "quick" else 4000)
+        direct = [("src/**/*.rs", ["src/token/mod.rs", "src/lib.rs"]), ("**/{*.{go,rs}}", ["src/graph/link.rs", "link.go"]),
+                  ("<[!.]*/>[0-9]?-(?i){alpha,beta}$", ["a/b/07-ALPHA", "3x-beta.tar"]), ("*", ["a"]), ("a", ["a"]), ("{a,b}/?", ["a/x"])]
+        reqs = [(exprs[k], bypath[k][:6]) for k in ks] + direct
+        for (e, ps), line in zip(reqs, h.ask(["V %s %s" % (hexs(e), " ".join(hexs(p) for p in ps)) for e, ps in reqs])):
+            rep.evaluations += 1
+            f = [x for x in line.split(" ") if x.startswith("any-caps=")]
+            if not f:
+                continue
+            if f[0] == "any-caps=one":
+                rep.stats["any([e]) / any([g]) / any([e, e]) / nested: exactly one capture, the complete text"] += 1
+            else:
+                rep.violation("oracle", "a combinator over %r exposes something other than the complete text at a capture index (route:index:text@path)" % e,
+                              {"expr": e, "paths": ps, "what": "any-captures"}, impl=f[0][:300])
+
     def ask(wit):
         line = h.ask(["MO %s %s" % (hexs(wit["expr"]), hexs(wit["path"]))])[0]
         return ("s:" + hexs(wit["capture"]) + "@") in line, "%r on %r captures %r" % (wit["expr"], wit["path"], wit["capture"])
